@@ -18,7 +18,7 @@ from checks.C06 import validate_signserver
 from checks.C14 import race_run_seeded, window
 
 BASE = [("steady", 1), ("two-workers", 2), ("fatal-error", 1), ("refused", 1), ("health-check", 1), ("kill", 1), ("close-in-flight", 1),
-        ("wrong-pin-at-start", 1), ("respawn-slow-start", 2), ("respawn-under-load", 2), ("pin-changed", 1)]
+        ("sign-options", 1), ("wrong-pin-at-start", 1), ("respawn-slow-start", 2), ("respawn-under-load", 2), ("pin-changed", 1)]
 
 
 def scenarios(reps):
@@ -94,7 +94,7 @@ def run(t):
             validate_signserver(run, lines, f"server-on-workers-{k}")
     finally:
         shutil.rmtree(d, ignore_errors=True)
-    run.cov["rule"] = (f"{len(SCENARIOS)} scenario runs x {reps} with the real token/worker parent and real worker processes: steady signing; two workers under parallel requests; "
+    run.cov["rule"] = (f"{len(SCENARIOS)} scenario runs x {reps} with the real token/worker parent and real worker processes: steady signing; two workers under parallel requests; the caller's signing options across the process boundary (PKCS#1 v1.5, PSS with salt = hash / maximal / 20 / 64, ECDSA, options without a digest algorithm: the mechanism and parameters the token model sees, the signature under the caller's options) and a key object that outlives the replacement of its key on the token (it must not sign with the newcomer); "
                        "a fatal token error (CKR_DEVICE_REMOVED) during a signature -> the worker leaves, the request is retried on its successor; a non-fatal token error -> "
                        "reported at once, not retried, the worker stays; a failing health check; kill -9 with a request issued into the gap; Close while the token is busy "
                        "with a signature; a wrong PIN at start; the PIN changed on the token followed by the loss of the worker. Every event log validated against the "
